@@ -746,6 +746,14 @@ class Tracker:
             if j is not None and not j.wild and any(n for v, n, m in j.deg):
                 j = None             # a negative factor swaps max and min
             return out(j)
+        if name == "np.real_if_close":
+            if h0 is None or h0.wild or h0.invariant:
+                return out(h0)
+            self.event(it, "E2", "np.real_if_close drops imaginary parts "
+                                 "below an ABSOLUTE tolerance (tol machine "
+                                 f"epsilons) of a quantity that scales with "
+                                 f"the representative ({h0!r})")
+            return out(None)
         if name == "np.clip" and len(args) == 3:
             # clamping to fixed bounds is meaningful for scale-free values
             j = h0
